@@ -76,6 +76,11 @@ func TestVerifDriver(t *testing.T) {
 					}
 					up = true
 				}
+			case "seterr":
+				// the store answers every command with an error (a long outage of a reachable server)
+				mr.SetError("LOADING verif: store failing")
+			case "clearerr":
+				mr.SetError("")
 			case "flood":
 				// many Authenticate calls for distinct apps in quick succession (one summary row)
 				hist := map[int]int{}
